@@ -78,22 +78,29 @@ def err_edge_unreachable(ctx, inst, body, call_nodes, targets, what, repass=True
 
 
 def names_of(body, e):
+    """role names (rules/roles.py) of the locals / arguments an expression mentions; debug names only as a fallback"""
+    from rules import roles
     out = set()
     for x in e.walk():
-        if x.k == "local" and body.local_name(x.extra):
-            out.add(body.local_name(x.extra))
-        if x.k == "arg" and x.extra[1]:
-            out.add(x.extra[1])
+        if x.k == "local":
+            nm = roles.name_of(body, x.extra)
+            if nm:
+                out.add(nm)
+        if x.k == "arg":
+            nm = roles.name_of(body, x.extra[0])
+            if nm:
+                out.add(nm)
     return out
 
 
 def origin_names(body, e):
+    from rules import roles
     out = set()
     for (k, l) in A.origins(body, e):
-        if k == "local" and body.local_name(l):
-            out.add(body.local_name(l))
-        if k == "arg" and body.local_name(l):
-            out.add(body.local_name(l))
+        if k in ("local", "arg"):
+            nm = roles.name_of(body, l)
+            if nm:
+                out.add(nm)
     return out
 
 
@@ -162,3 +169,72 @@ def closure_ret_cmp(cbody):
     return {"op": op, "lhs_fields": expr_fields(a), "rhs_fields": expr_fields(b),
             "lhs_upvars": upvar_names(cbody, a), "rhs_upvars": upvar_names(cbody, b),
             "lhs": a.show(), "rhs": b.show(), "lhs_e": a, "rhs_e": b}
+
+
+
+def range_indexed_iteration(body, e):
+    """if `e` derives from iterating `base[lo..hi]`, return (base origin locals, lo expr, hi expr)"""
+    tr = A.tracer(body)
+    seen = set()
+    work = [e]
+    while work:
+        x = work.pop()
+        for y in x.walk():
+            if y.k == "call" and ("Index" in y.extra and y.extra.endswith("::index")) and len(y.a) > 1:
+                rg = y.a[1]
+                if rg.k == "agg" and rg.extra and rg.extra.split("::")[-1] == "Range" and len(rg.a) == 2:
+                    return (A.origins(body, y.a[0]), rg.a[0], rg.a[1])
+            if y.k == "local" and y.extra not in seen:
+                seen.add(y.extra)
+                for d in body.defs.get(y.extra, []):
+                    work.append(tr.node_value(d))
+    return None
+
+
+def check_scrub_release_clears_group(ctx, inst):
+    """release_scrubbed_allocations: every allocation whose sectors were returned in one run gets its reservation
+    marked clean and cleared (a requeued entry must not keep a reservation for sectors that are free again)"""
+    b = ctx.fn("write_buffer::release_scrubbed_allocations", inst)
+    if b is None:
+        return
+    rs = ctx.sites(b, R.call("FreeSpaceManager::release_sectors"), inst, exact=1)
+    for nm in ("write_buffer::mark_reservation_clean", "write_buffer::clear_reserved_sector"):
+        cs = ctx.sites(b, R.call(nm), inst, exact=1)
+        for c in cs:
+            e = R.arg_expr(b, b.nodes[c], 0)
+            it = range_indexed_iteration(b, e)
+            in_loop = False
+            r, _ = A.reach(b, A.succs(b, c), sensitive=False)
+            in_loop = c in r
+            ctx.check(e.has_call("Iterator::next") and it is not None and in_loop, inst, "FOLLOW", b.path,
+                      "%s is applied to every allocation of the released run (loop over ordered[group_start..group_end])" % nm.split("::")[-1], b.where(c),
+                      {"expr": e.show()})
+            if it is not None and rs:
+                base, lo, hi = it
+                start = R.arg_expr(b, b.nodes[rs[0]], 1)
+                # the released run starts at ordered[lo].0 and ends where `hi` stopped accumulating
+                lo_l = {x.extra for x in lo.walk() if x.k == "local"}
+                hi_l = {x.extra for x in hi.walk() if x.k == "local"}
+                start_idx = set()
+                for y in start.walk():
+                    if (y.k == "index" or (y.k == "call" and y.extra.endswith("::index"))) and len(y.a) > 1:
+                        start_idx |= {z.extra for z in y.a[1].walk() if z.k == "local"}
+                for (k, l) in A.origins(b, start):
+                    pass
+                # origins of the start argument's defining expression
+                so = set()
+                for y in start.walk():
+                    if y.k == "local":
+                        for d in b.defs.get(y.extra, []):
+                            v = A.tracer(b).node_value(d)
+                            for z in v.walk():
+                                if (z.k == "index" or (z.k == "call" and z.extra.endswith("::index"))) and len(z.a) > 1:
+                                    so |= {w.extra for w in z.a[1].walk() if w.k == "local"}
+                ctx.check(bool(lo_l) and (lo_l <= (start_idx | so)), inst, "PROVENANCE", b.path,
+                          "the cleared group starts at the allocation whose sector starts the released run", b.where(c),
+                          {"range_lo": lo.show(), "release_start": start.show()})
+                cnt = R.arg_expr(b, b.nodes[rs[0]], 2)
+                # the released length accumulates while the upper bound advances: both are updated in the same inner loop
+                hi_defs = [d for l in hi_l for d in b.defs.get(l, [])]
+                ctx.check(len(hi_defs) >= 2, inst, "PROVENANCE", b.path, "the upper bound of the cleared group is the bound the run was extended to", b.where(c), {"range_hi": hi.show()})
+        R.guard(ctx, inst, b, cs, R.guard_edges_for_call(b, rs, "Ok"), "%s only after the release succeeded" % nm.split("::")[-1])
